@@ -71,7 +71,7 @@ func (h *transportHandler) HandleLinkEstablished(lnk link.Link) {
 		}
 
 		mlnk := newMountedLink(h.c, tpt, lnk)
-		el, err := newEstablishedLink(h.c.le, execCtx, h.c.bus, lnk, mlnk, tpt, h.c)
+		el, err := newEstablishedLink(h.c.le, execCtx, h.c.bus, lnk, luuid, mlnk, tpt, h.c)
 		if err != nil {
 			h.c.le.WithError(err).Warn("unable to construct established link")
 			go lnk.Close()
